@@ -7,8 +7,8 @@ import AioMySensors.Model.Handlers
 namespace AioMySensors
 
 inductive Op where
-  | recv (env : Env) (line : Str) (faults : List Bool)
-  | send (obj : Option Msg) (buffer : Bool) (faults : List Bool)
+  | recv (env : Env) (line : Str) (faults : List Fault)
+  | send (obj : Option Msg) (buffer : Bool) (faults : List Fault)
 
 /-- What one operation shows to the outside: the outcome and the write attempts. -/
 structure Obs where
